@@ -122,8 +122,10 @@ CHECKS = {
          "alphabet with every option set, checks that the loop-as-function used for judging is what the machine computes, and rejects the named deviation "
          "(an exit that swallows the exception); TLC generates every small table with non-data lines of every kind (16 malformed kinds, undecodable byte) at "
          "every position; each file is rendered (spellings, whitespace, CRLF, padding past the first read buffer; text / bytes / path; read_swc / Tree.from_swc) "
-         "and the observed outcome (rows, comments, warning, or exception) is judged by TLC against the specification's outcome",
-    design="4/C02", technique="TLA+ reader state machine (SwcIO.tla) model-checked exhaustively (deviation rejected) + TLC-generated files replayed into the code + TLC-judged outcomes"),
+         "and the observed outcome (rows, comments, warning, or exception) is judged by TLC against the specification's outcome; in addition the reader is "
+         "handed a logging text stream and the recorded events (every line hand-out, end of stream, close, outcome) are replayed against the state machine "
+         "by Trace_SwcIO: lines are consumed one by one, nothing is read past a bad line, the stream is closed before the call ends, the outcome is the machine's",
+    design="4/C02", technique="TLA+ reader state machine (SwcIO.tla) model-checked exhaustively (deviation rejected) + TLC-generated files replayed into the code + TLC-judged outcomes + trace validation of the recorded line events"),
  "C06": dict(
     text="TLC enumerates every well-formed topology (all numberings) up to the bound with every admissible argument; each case is replayed "
          "into get_subtree / Node.subtree / to_subtree / cut_tree / CutByType / CutByFurcationOrder / CutShortTipBranch and the observed "
